@@ -273,6 +273,8 @@ type TimingOpts struct {
 	MI300AKnobs bool
 	// CoalescingPenalty > 0 alone: only that parameter on top of the defaults.
 	CoalescingPenalty int
+	// TransPipelineWidth > 0 alone: the width of the vector-memory transaction pipeline on top of the defaults.
+	TransPipelineWidth int
 }
 
 type taskHook struct{ f func(ctx sim.HookCtx) }
@@ -309,6 +311,9 @@ func RunTiming(x *explore.Exec, k *Kernel, g Geometry, o TimingOpts) (res *Resul
 	}
 	if o.CoalescingPenalty > 0 {
 		b = b.WithMaxCoalescingPenalty(o.CoalescingPenalty)
+	}
+	if o.TransPipelineWidth > 0 {
+		b = b.WithVecMemTransPipelineWidth(o.TransPipelineWidth)
 	}
 	c := b.Build("CU")
 	toACE, toI, toS, toV := c.ToACE, c.ToInstMem, c.ToScalarMem, c.ToVectorMem
